@@ -63,6 +63,19 @@ def make_data(c):
     n = int(sum(c["lengths"]))
     X = rng.normal(size=(n, c["dim"]))
     starts = np.concatenate([[0], np.cumsum(c["lengths"])]).astype(int)
+    sp = c.get("special")
+    if sp == "tiny":
+        X = X * c.get("scale", 1e-9)                      # coordinates in metres: every distance far below 1e-8
+    elif sp == "near_tie" and c["lengths"][0] >= 2 and len(c["lengths"]) >= 2:
+        # after the first center (frame 0, rank 0) the farthest frame lives on rank 1 at distance D+1 while rank 0's
+        # own farthest frame is at distance D: the two local maxima differ by one part in D (1e-5 .. 1e-7), tie-free
+        D = float(c.get("D", 10 ** 6))
+        X = X * (D / 10.0)
+        X[0] = 0.0
+        X[1] = 0.0
+        X[1, 0] = D
+        X[starts[1]] = 0.0
+        X[starts[1], 0] = -(D + 1.0)
     trajs = [X[starts[i]:starts[i + 1]] for i in range(len(c["lengths"]))]
     return X, trajs
 
@@ -129,13 +142,20 @@ def kcenters_case(draw, **kw):
     c["k"] = draw(st.integers(1, min(n, 8)))
     c["radius_rank"] = draw(st.integers(0, 7))
     c["tri"] = draw(st.booleans())
+    c["special"] = draw(st.sampled_from([None, None, None, "tiny", "near_tie"]))
+    if c["special"] == "tiny":
+        c["scale"] = draw(st.sampled_from([1e-9, 1e-10, 1e-12]))
+    elif c["special"] == "near_tie":
+        c["D"] = draw(st.sampled_from([10 ** 5, 10 ** 6, 10 ** 7]))
     return c
 
 
 def stopping(c, X):
     metric = c["metric"]
     idx, radii, gap = greedy(metric, X, len(X))
-    if gap < 1e-7:
+    unit = float(radii[0]) if radii[0] > 0 else 1.0       # "tie-free" is relative to the extent of the data
+    unit = min(unit, 1.0)
+    if gap < 1e-7 * unit:
         raise Skip()
     kw = {}
     if c["stop"] in ("n", "both"):
@@ -144,7 +164,7 @@ def stopping(c, X):
         j = min(c["radius_rank"], len(radii) - 1)
         lo = radii[j]
         hi = radii[j - 1] if j > 0 else radii[0] * 1.5 + 1.0
-        if j < len(radii) - 1 and not (hi - lo > 1e-7):
+        if j < len(radii) - 1 and not (hi - lo > 1e-7 * unit):
             raise Skip()
         kw["dist_cutoff"] = (lo + hi) / 2 if lo > 0 else hi / 2
     return kw, idx
@@ -225,7 +245,9 @@ def run_hybrid(c):
     lengths = np.array(c["lengths"], dtype=int)
     metric = c["metric"]
     idx, radii, gap = greedy(metric, X, len(X))
-    if gap < 1e-7:
+    unit = float(radii[0]) if radii[0] > 0 else 1.0       # "tie-free" is relative to the extent of the data
+    unit = min(unit, 1.0)
+    if gap < 1e-7 * unit:
         raise Skip()
     size = c["size"]
     ser_kc = kc.kcenters(X.copy(), metric, n_clusters=c["k"])
@@ -277,7 +299,9 @@ def run_warm(c):
     lengths = [int(x) for x in c["lengths"]]
     metric = c["metric"]
     idx, radii, gap = greedy(metric, X, len(X))
-    if gap < 1e-7:
+    unit = float(radii[0]) if radii[0] > 0 else 1.0       # "tie-free" is relative to the extent of the data
+    unit = min(unit, 1.0)
+    if gap < 1e-7 * unit:
         raise Skip()
     size = c["size"]
     ser = kc.kcenters(X.copy(), metric, n_clusters=c["k"])
